@@ -162,7 +162,7 @@ def run(ctx):
     ctx.assumptions += ["block-structured vendors only (juniper, nokia, ribbon, routeros flatten the patch and are out of this property's quantifier)",
                         "deploy rulebooks with pairwise disjoint sibling rules for the timeout/dialog clause",
                         "wrapper vocabulary (enter/commit/leave/save command names) is a table of the spec"]
-    r = ctx.mc("mc/MC_Session.tla", "mc/MC_Session_%s.cfg" % ("quick" if quick else "thorough"), workers=1 if quick else 4, timeout=3000)
+    r = ctx.mc("mc/MC_Session.tla", "mc/MC_Session_%s.cfg" % ("quick" if quick else "thorough"), workers=1 if quick else 4, timeout=4 * 3600)
     if r.violated:
         ctx.reject("mc", "session model: %s" % r.violated, {"tlc": r.out[-3000:]}, None)
     trees = [json.loads(c[0])["pt"] for c in core.parse_tagged(r.out, "PT")]
